@@ -12,6 +12,7 @@ pub mod c14;
 pub mod c15;
 pub mod c18;
 pub mod env;
+pub mod prove;
 pub mod server;
 pub mod simchain;
 pub mod simtest;
@@ -150,6 +151,9 @@ pub fn site_class(site: u64) -> &'static str {
         // Sampling
         40 | 43 | 44 => "add-overflow",
         41 | 42 => "sub-overflow",
+        // Prove
+        60 | 61 | 65 => "add-overflow",
+        64 | 71 => "sub-overflow",
         _ => "unknown-site",
     }
 }
@@ -248,6 +252,14 @@ pub fn catch<T>(f: impl FnOnce() -> T) -> Result<T, String> {
 
 /// panics of the code under test (inside `catch`) are expected and silent; a panic of the
 /// harness itself is printed
+/// make the client's own random choices (FlyClient sampling) a function of `seed`
+pub fn seed_client_randomness(seed: u64) {
+    let mut r = Rng::new(seed ^ 0x5eed);
+    crate::verif_hooks::set_random_unit(Some(Box::new(move || {
+        (r.next() >> 11) as f64 / (1u64 << 53) as f64
+    })));
+}
+
 pub fn silence_panics() {
     std::panic::set_hook(Box::new(|info| {
         if IN_CATCH.with(|c| c.get()) == 0 {
@@ -302,6 +314,7 @@ pub fn main() {
     let opts = parse_args();
     silence_panics();
     let report = match opts.property.as_str() {
+        "C01" | "C11" | "C12" => prove::run(&opts, &opts.property.clone()),
         "C07" => c07::run(&opts),
         "C13" => c13::run(&opts),
         "C14" => c14::run(&opts),
